@@ -100,3 +100,71 @@ Section Conc2.
   Definition init2 (now0 : N) (progs : list (list op)) : shared * list local2 :=
     (init_shared now0, map (fun p => {| l2_base := init_local p; l2_sweep := None |}) progs).
 End Conc2.
+
+(* ------------------------------------------------------------------------------------------ *)
+(* The second section of GetHash / GetAllHash / GetExpiration and item identity                 *)
+(* ------------------------------------------------------------------------------------------ *)
+(* The second critical section re-tests EXPIRY ([gc_key]: `if item, ok := m.data[key]; ok && expired(item) { delete }`).
+   A tempting rewrite re-tests IDENTITY instead: "delete if m.data[key] is still the *StorageItem I saw under the read
+   lock".  That is unsound because not every writer installs a new item: SetHash and IncrBy refresh an expired item IN
+   PLACE (same pointer), as do the other methods that assign item.Value / item.Expiration.  To state this, the system
+   below tracks for every key the identity of the item stored there: a fresh number whenever a method executes
+   `m.data[key] = &StorageItem{...}`, unchanged when it mutates the existing item.  Kept to be refuted
+   (Proofs/KV.pointer_recheck_refuted); the harness' "upgrade" scenario replays the schedule on the real code. *)
+
+(* does this call execute `m.data[k] = &StorageItem{...}` ? (memory.go / memory_ops.go, method by method) *)
+Definition installs_new_item (m : kvmap) (now : N) (o : op) : option key :=
+  let gone k := match m k with None => true | Some it => expired now it end in
+  match o with
+  | KSet k _ _ | KSetList k _ _ => Some k
+  | KSetNX k _ _ => if gone k then Some k else None
+  | KAppend k _ => if gone k then Some k else None
+  | KSetHash k _ _ | KIncrBy k _ => match m k with None => Some k | Some _ => None end   (* an expired item is reset in place *)
+  | KCAS k old _ _ => if gone k && is_nil old then Some k else None
+  | _ => None
+  end.
+
+Record shared3 := { s3 : shared; s3_id : key -> N; s3_next : N }.
+Record local3 := { l3_base : local; l3_saw : option (key * N) }.
+
+Section Conc3.
+  Variable D : N.
+  Variable V : kvariant.
+
+  Definition tstep_pointer_recheck (lo : local3) (sh : shared3) : local3 * shared3 :=
+    match l3_saw lo with
+    | Some (k, id) =>
+        (* second section: `if cur, ok := m.data[key]; ok && cur == item { delete(m.data, key) }` *)
+        let m := sh_m (s3 sh) in
+        let m' := match m k with
+                  | Some _ => if N.eqb (s3_id sh k) id then upd m k None else m
+                  | None => m
+                  end in
+        ({| l3_base := {| lo_prog := lo_prog (l3_base lo); lo_pending := None; lo_seen := lo_seen (l3_base lo) |}; l3_saw := None |},
+         {| s3 := {| sh_m := m'; sh_now := sh_now (s3 sh); sh_log := sh_log (s3 sh) |}; s3_id := s3_id sh; s3_next := s3_next sh |})
+    | None =>
+        match lo_prog (l3_base lo) with
+        | [] => (lo, sh)
+        | o :: _ =>
+            let m := sh_m (s3 sh) in
+            let now := sh_now (s3 sh) in
+            let '(b, sh') := tstep D V (l3_base lo) (s3 sh) in
+            match lo_pending b with
+            | Some k =>     (* first section found the item expired: remember which item it was; the base system's own
+                               (expiry re-testing) second section is replaced by the one above *)
+                ({| l3_base := {| lo_prog := lo_prog b; lo_pending := None; lo_seen := lo_seen b |}; l3_saw := Some (k, s3_id sh k) |},
+                 {| s3 := sh'; s3_id := s3_id sh; s3_next := s3_next sh |})
+            | None =>
+                match installs_new_item m now o with
+                | Some k => ({| l3_base := b; l3_saw := None |},
+                             {| s3 := sh'; s3_id := fun k' => if key_eqb k' k then s3_next sh else s3_id sh k'; s3_next := s3_next sh + 1 |})
+                | None => ({| l3_base := b; l3_saw := None |}, {| s3 := sh'; s3_id := s3_id sh; s3_next := s3_next sh |})
+                end
+            end
+        end
+    end.
+
+  Definition init3 (now0 : N) (progs : list (list op)) : shared3 * list local3 :=
+    ({| s3 := init_shared now0; s3_id := fun _ => 0; s3_next := 1 |},
+     map (fun p => {| l3_base := init_local p; l3_saw := None |}) progs).
+End Conc3.
